@@ -314,6 +314,33 @@ fn judge(tables: &sqlgrep::data_model::Tables, e: &E, typed: bool, rank: u64) ->
             ));
         }
     }
+    // the same minimal text with every blank replaced by a line break (and by a tab) must parse to the same statement
+    if out.is_empty() {
+        if let Ok(reference) = &pm {
+            for (name, sep) in [("lf", "\n"), ("tab", "\t"), ("crlf", "\r\n")] {
+                let alt = format!("SELECT{}{}{}FROM t", sep, e.min().replace(' ', sep), sep);
+                let pa = catch(|| sqlgrep::parsing::parse(&alt).map(|s| format!("{:?}", s)).map_err(|e| format!("{}", e)));
+                match pa {
+                    Ok(Ok(x)) if &x == reference => {}
+                    Ok(other) => {
+                        out.push(fail(
+                            format!("separator-{}:{}:{}", name, if other.is_ok() { "parses-differently" } else { "rejected" }, shape),
+                            format!("`{}` written with {} between the tokens {}", e.min(), name, match &other { Ok(_) => "parses to another statement".to_string(), Err(m) => format!("is rejected: {}", m) }),
+                            json!({"minimal": min_text, "full": full_text, "typed": typed, "separator": name}),
+                            json!(reference),
+                            json!(other),
+                            rank,
+                        ));
+                        break;
+                    }
+                    Err(p) => {
+                        out.push(fail(panic_signature(&p), format!("parser panicked on {:?}", alt), case.clone(), json!("no panic"), json!(p.msg), rank));
+                        break;
+                    }
+                }
+            }
+        }
+    }
     // oracle (b): evaluate the minimal text on distinguishing rows
     if typed && out.is_empty() {
         if let Ok(st) = sut::parse(&format!("SELECT ({}) AS x FROM t", e.min())) {
